@@ -158,6 +158,8 @@ def softmax_row_q8(row, beta: float, input_scale: float, out_min: int, out_max: 
         d = v - mx
         if d >= diff_min:
             total += rounding_divide_by_pot(exp_of(d), 12)
+    if total >= (1 << 31):
+        raise OverflowError("sum of exponentials exceeds the reference kernel's 32-bit accumulator (Q12.19: rows of more than 4096 near-maximal elements)")
     headroom_plus_one = 32 - total.bit_length() if total > 0 else 32
     num_bits_over_unit = 12 - headroom_plus_one
     shifted_sum_minus_one = ((total << headroom_plus_one) & 0xFFFFFFFF) - (1 << 31)
